@@ -45,7 +45,7 @@ GenNext == obs.a = "Init" /\
         \/ \E k \in GChains : MsgNames(k)
         \/ \E kind \in ObfKinds, n \in GTagLens : ObfTwice(kind, n, "k1", "k2", 1, 2)
         \/ \E a \in GExReq, b \in GExResp, dom \in {<<1, 7, 3>>, <<1, 10, 7>>} : Exchange(a, b, dom)
-        \/ \E ty \in ParamTypes, url \in UrlModes : AnyPack(ty, url)
+        \/ \E ty \in ParamTypes, url \in UrlModes, m \in MsgShapes, d \in DstStates : AnyPack(ty, url, m, d)
 GenSpec == Init /\ [][GenNext]_vars
 Emit == obs.a = "Init" \/ PrintT(ToJson(obs))
 =============================================================================
